@@ -658,7 +658,7 @@ package graphql
 //@   at[C01] call collectInto#2: assert arg6 == nil && (arg7 == nil <==> (container == nil && spreadPred == nil))
 //@   at[C01] call add: assert arg1 == container && arg2 == spreadPred
 // a fragment that was already collected under a gate is widened by every later spread
-//@   loop[C01] 1 ensures typeis(iSelection, "*ast.FragmentSpread") && calls("collectInto") == atloop(1, calls("collectInto")) && calls("andPredicates") > atloop(1, calls("andPredicates")) && as(iSelection, "*ast.FragmentSpread").Name != nil && atloop(1, visitedFragmentNames[as(iSelection, "*ast.FragmentSpread").Name.Value]) && atloop(1, sp.fragmentGates[as(iSelection, "*ast.FragmentSpread").Name.Value] != nil) ==> calls("add") == atloop(1, calls("add")) + 1
+//@   loop[C01] 1 ensures typeis(iSelection, "*ast.FragmentSpread") && calls("collectInto") == atloop(1, calls("collectInto")) && calls("andPredicates") > atloop(1, calls("andPredicates")) && as(iSelection, "*ast.FragmentSpread").Name != nil && heapatloop(1, visitedFragmentNames[as(iSelection, "*ast.FragmentSpread").Name.Value]) && heapatloop(1, sp.fragmentGates[as(iSelection, "*ast.FragmentSpread").Name.Value] != nil) ==> calls("add") == atloop(1, calls("add")) + 1
 
 // The combinators: nil is the constant-true predicate.
 //@ func andPredicates
